@@ -60,3 +60,27 @@ def interleaved(make):
         if inner is None:
             inner = list(make())
     return out_a, out_b, got, (inner if inner is not None else [])
+
+
+def orphans(case, ctx, plain):
+    """The concepts of a lattice whose Context and Lattice objects the caller no longer references.
+
+    A helper that returns ``list(context.lattice)`` is ordinary user code; what the concepts answer afterwards may
+    not depend on the garbage collector.  Returns the member objects in reference order (or None if the lattice
+    is not the concept set - C03 reports that)."""
+    import gc
+    import concepts
+    ref = Ref.of(case)
+    maps = lib.Maps(case)
+
+    def members():
+        context = concepts.Context(case['o'], case['p'], gen.bools_of(case))
+        return list(context.lattice)
+
+    got = ctx.call('orphans/list(context.lattice)', plain, members)
+    gc.collect()
+    cs = ref.concepts
+    by_ext = {maps.omask(c.extent): c for c in got}
+    if set(by_ext) != set(ref.index):
+        return None
+    return [by_ext[c[0]] for c in cs]
